@@ -136,6 +136,8 @@ func runC11(c *Ctx) {
 	checkIdentityMerge(c, eff)
 	checkEviction(c)
 	checkLoadHeuristic(c)
+	// the snapshot the excerpts are made from is maintained incrementally: it must be the compiled one (shared with C10)
+	checkWithSnapshot(c)
 }
 
 // R11.6
